@@ -4,6 +4,10 @@ import json, subprocess
 G = "GOFLAGS=-mod=mod GOPROXY=off GOSUMDB=off GOTOOLCHAIN=local"
 TECH = "explicit TLA+ spec (abstract + implementation layer); TLC exhaustive refinement check; "
 CHECKS = {
+ "C05": dict(cat="model_checking", ref="DESIGN.md §5 C05, appendix A.1",
+  text="spec/Router.tla holds the abstract dispatch relation (MatchArgs/Safe/More/Allowed = A1-A4) and a branch-by-branch transcription of gen/route_tree.go addRoute/addChild and of the generated matcher with Go's break semantics. TLC checks exhaustively (all ordered sets of <=2 templates x all paths x both methods, millions of states) that the repaired matcher stays inside Allowed and that the two named deviations are exactly what breaks it. Conformance: real gen.Router.Add trees are compared with the model's Build for every enumerated ordered set plus random larger sets; one server per route set is regenerated from /repo and every bounded path x method is sent through ServeHTTP (plain, prefixed, two needless-escape spellings, invalid RawPath) and FindPath, the per-package trace being validated by TLC (state = current route set and tree).",
+  note="Bounded: templates <=3 (quick) / <=4 (thorough) tokens over {/ a b P}, paths <=4 / <=5 characters over {/ a b x}, enumerated sets of <=2 templates plus seeded random sets of 3-6; methods GET/POST. Two template-level deviations are recorded findings (known_findings.json). Trusted: TLC, Json module, net/http/httptest, the op-id<->template table of the harness.",
+  tech=TECH+"trace validation of regenerated servers (ServeHTTP/FindPath observations) and replay of gen.Router.Add against the model's tree"),
  "C06": dict(cat="model_checking", ref="DESIGN.md §5 C06",
   text="spec/ParamStyle.tla states the OpenAPI 3.0.3 style table (Table), the ambiguity rule (MustRefuse/MayRefuse) and round-trip/escaping obligations; TLC checks that the table composed with the cursor-machine transcription of uri's decoders round-trips every bounded value of every admitted row, and judges, for all 168 (location, style, explode, shape) combinations, the admission observed on the real parser+generator and every value pushed through the real public uri encoders/decoders (raw wire, logical wire, decoded value, panics).",
   note="Values bounded (primitives <=2/3 bytes over a 9-symbol delimiter alphabet, arrays <=3 items, objects <=2 fields) plus seeded random Unicode/byte members; for empty collections only 'no panic' is demanded (the table prescribes no form and [] / [\"\"] collide); percent-escaping of url.Values.Encode/PathEscape is environment. Trusted: TLC, Json module, net/url and net/http as carriers.",
